@@ -330,6 +330,28 @@ def run_case(case):
         f.write(b)
     (status, obj), peak = read_guarded(path, len(b))
     ref = fjmref.decode(b)
+    if status in ('ok', 'reject'):
+        # the same bytes through the reader's other garbage-handling modes: what is a file and which image it holds
+        # may not depend on how accesses outside the segments will be treated later
+        from flipjump.fjm.fjm_reader import Reader, GarbageHandling
+        from flipjump.utils.exceptions import FlipJumpReadFjmException
+        mode = GarbageHandling(1 + (len(b) + sum(b[:8])) % 3)
+        try:
+            with engines.hang_guard(30):
+                r2 = Reader(path, garbage_handling=mode)
+            st2 = 'ok'
+        except FlipJumpReadFjmException:
+            st2, r2 = 'reject', None
+        except engines.EngineTimeout:
+            st2, r2 = status, None
+        except Exception as e:  # noqa
+            return Violation('c10:reader-raw-exception:%s:garbage-handling=%s' % (type(e).__name__, mode.name), {'exc': repr(e)[:300], 'hex': b[:96].hex()}, cl)
+        if st2 != status:
+            return Violation('c10:garbage-handling-mode-changes-acceptance', {'default': status, mode.name: st2, 'len': len(b), 'hex': b[:160].hex()}, cl)
+        if r2 is not None and status == 'ok' and (r2.memory != obj.memory or [(x.segment_start, x.segment_length) for x in r2.memory_segments]
+                                                  != [(x.segment_start, x.segment_length) for x in obj.memory_segments]):
+            return Violation('c10:garbage-handling-mode-changes-image', {'mode': mode.name, 'hex': b[:160].hex()}, cl)
+        cl.append('also read with garbage_handling=' + mode.name)
     if status == 'timeout':
         return Discard('inconclusive: reader wall guard')
     if status == 'raw':
